@@ -12,12 +12,12 @@ git checkout -q -- . ; git clean -fdq
 demoname=zz_seeded_demo_test.go
 cp $demo $dest/$demoname
 echo "== clean tree demo" >> $log
-go test -vet=off -count=1 -run "$pat" ./$dest/ >> $log 2>&1; clean_rc=$?
+go test -tags verif -vet=off -count=1 -run "$pat" ./$dest/ >> $log 2>&1; clean_rc=$?
 git apply $patch || { echo "patch does not apply" >> $log; exit 2; }
 echo "== build" >> $log
 go build ./... >> $log 2>&1; build_rc=$?
 echo "== patched demo" >> $log
-go test -vet=off -count=1 -run "$pat" ./$dest/ >> $log 2>&1; patched_rc=$?
+go test -tags verif -vet=off -count=1 -run "$pat" ./$dest/ >> $log 2>&1; patched_rc=$?
 rm -f $dest/$demoname
 echo "== full suite with patch" >> $log
 go test -vet=off -count=1 ./... > $out/suite.log 2>&1
